@@ -1,10 +1,13 @@
 #!/bin/bash
-# usage: tools/seed_import.sh <Cxx>  — copy the sub-agent's seeded changes into seeded/<Cxx>-k/ and evaluate them
+# usage: [SEEDROOT=/tmp/seed2 SEEDTAG=r2-] tools/seed_import.sh <Cxx> [other checks]
+# copy the sub-agent's seeded changes into seeded/<Cxx>-<tag>k/ and evaluate those not evaluated yet
 P=$1
 for k in 1 2 3; do
-  S=/tmp/seed/$P/_out
+  S=${SEEDROOT:-/tmp/seed}/$P/_out
   [ -f $S/patch$k.diff ] || continue
-  D=/verif/seeded/$P-$k; mkdir -p $D
+  D=/verif/seeded/$P-${SEEDTAG:-}$k
+  if [ -f $D/eval.txt ] && grep -q "check $P: exit [01] ::" $D/eval.txt && [ -z "$FORCE" ]; then continue; fi
+  mkdir -p $D
   cp $S/patch$k.diff $D/patch.diff; cp $S/demo$k.py $D/demo.py; cp $S/meta$k.json $D/meta.json 2>/dev/null
-  echo "=== $P-$k"; /verif/tools/seed_eval.sh $P $D "${@:2}" | tee $D/eval.txt
+  echo "=== $P-${SEEDTAG:-}$k"; /verif/tools/seed_eval.sh $P $D "${@:2}" | tee $D/eval.txt
 done
